@@ -17,22 +17,22 @@ CHECKS = {
 	'C07': ('exploration', 'runtime monitor: positional-arithmetic oracle on kmer_to_index / kmer_to_index_rc / index_to_kmer / revcomp; exhaustive k<=8 and all 1-2 byte strings; ASan/UBSan overlay',
 	        'All k-mers for k<=8 (three case patterns) and all byte strings of length <=2 over 0..255 are enumerated; boundary and random k-mers / indices for every k<=32, over-long k-mers must be rejected; all four accepted input types; same workload under ASan+UBSan.',
 	        'Trusts vf/oracles/sigdef.py; "rejected with an error" = any exception.', 'DESIGN.md 3/C07'),
-	'C15': ('exploration', 'runtime monitor: set-algebra oracle for range / identity / disjointness / bit symmetry / triangle (2^-22) / width invariance / strict decrease; exhaustive triples over 6-value universes; ASan overlay',
+	'C15': ('exploration', 'runtime monitor: set-algebra oracle for range / identity / disjointness / bit symmetry / triangle (2^-22) / width invariance / strict decrease; exhaustive triples over 6-value universes, the same table through 13 bulk routes incl. two live slices of one open signature file; ASan overlay',
 	        'The real pairwise distance table over all 64 subsets of five 6-value universes (incl. values colliding under 16/32-bit truncation) is computed for every width combination and all 64^3 ordered triples are checked; random triples built to stress the triangle inequality are sampled.',
 	        'Strict decrease demanded only where it is a theorem for rounded values (A != B, |A or B|+1 < 2^22).', 'DESIGN.md 3/C15'),
-	'C05': ('exploration', 'runtime monitor: bit-for-bit per-cell comparison of jaccarddist_array/_matrix/_pairwise with the two-signature function across containers, chunk sizes, index selections, NaN-canary output views, 1..16 OpenMP threads with repetition; ASan/UBSan overlay; ThreadSanitizer overlay with a libgomp-aware report filter',
+	'C05': ('exploration', 'runtime monitor: bit-for-bit per-cell comparison of jaccarddist_array/_matrix/_pairwise with the two-signature function across containers, chunk sizes, index selections, NaN-canary output views, 1..16 OpenMP threads with repetition, several containers (signature files) open at once and used in turn; ASan/UBSan overlay; ThreadSanitizer overlay with a libgomp-aware report filter',
 	        'Every cell of every bulk call is compared (uint32 view) with the real pairwise function; six container kinds incl. a file on disk, chunk sizes 1..n+2, permuted / repeated index selections, caller buffers surrounded by NaN canaries, thread counts 1..16 with each multi-threaded call repeated; chunk_slices enumerated exhaustively; a slice of the workload runs against ASan+UBSan and TSan builds of the generated C (TSan reports count only when both accesses are inside the OpenMP region on non-pragma lines).',
 	        'Races that neither change a value in any observed run nor survive the TSan filter are out of reach; libgomp is uninstrumented.', 'DESIGN.md 3/C05, 2.4'),
 	'C12': ('exploration', 'runtime monitor: write/read round trips compared with the in-memory original under every index kind; foreign byte contents must be refused with SignaturesFileError',
 	        'Seeded collections over k 1..32 (all four index widths, values up to 4^k-1), both write paths, annotated wrappers, string / int / uint64 ids, metadata with None vs empty string, nested extra, every compression filter of this h5py build; foreign contents: empty, short, text, FASTA, gzip, SQLite, HDF5 of other kinds, user block, magic+junk, truncated copies.',
 	        'NUL in strings and marker-bearing corrupt files are outside the stated domain.', 'DESIGN.md 3/C12'),
-	'C20': ('exploration', 'runtime monitor: plain-list reference model for every index expression on the three collection kinds, SignatureList mutation histories replayed against a list, content-equality matrix',
+	'C20': ('exploration', 'runtime monitor: plain-list reference model for every index expression on the three collection kinds, SignatureList mutation histories replayed against a list with equality re-judged after every step, content-equality matrix',
 	        'For collection lengths 0..7 and the in-memory, list-backed and on-disk kinds every integer (python and 9 numpy scalar types), every slice over the stated range, all boolean masks (n<=5), index lists/arrays in 9 dtypes, out-of-range and ill-typed indices are enumerated and compared with a plain list; seeded mutation histories with a sweep after each step; equality across 4x4 kind pairs and 9 difference classes.',
 	        'Reference model = Python list / NumPy object-array indexing.', 'DESIGN.md 3/C20'),
 	'C06': ('exploration', 'runtime monitor: absolute oracle (union of per-contig reference signatures) + metamorphic equality over file layouts; open-fd counting; ASan overlay; CLI slice',
 	        'Seeded multi-contig genomes with cross-boundary traps are written in crossed layouts (orientation, order, case, wrap width 1..inf, LF/CRLF, final newline, gzip, extension disagreeing with content, auto/explicit compression) and every computed file signature must equal the union of per-contig signatures of the reference definition; all 2^c x c! orientation/order variants for c<=4 are enumerated for some genomes.',
 	        'Trusts vf/oracles/sigdef.py and the FASTA writer in vf/oracles/fasta.py.', 'DESIGN.md 3/C06'),
-	'C13': ('exploration', 'runtime monitor with schedule control: caller-supplied executor + acknowledging progress meter force every permutation of task completion order; as_completed wrapped to record the delivered order; real thread/process pools with size skew and injected delays; failure injection at every position',
+	'C13': ('exploration', 'runtime monitor with schedule control: caller-supplied executor + acknowledging progress meter force every permutation of task completion order; as_completed wrapped to record the delivered order; real thread/process pools with size skew and injected delays; child processes that change directory after import (relative paths, decoys in the old directory); failure injection at every position',
 	        'Every completion order of n<=6 files (thorough 7) is forced deterministically and the delivered order recorded; sequential, thread and process pools with 1..16 workers are driven with skewed file sizes and per-task delays and their observed completion orders recorded; an unreadable / malformed file at every position must make the call raise, and a caller-supplied executor must stay usable.',
 	        'Forcing uses only documented parameters (executor=, progress=); recording wraps a module attribute from outside.', 'DESIGN.md 3/C13'),
 	'C19': ('fault_enumeration', 'fault injection: writer child SIGKILLed immediately before/after every storage-library call (all enumerated), and at every pwrite64 via strace inject; reader outcome classified refused / loaded-equal / loaded-different',
@@ -41,10 +41,10 @@ CHECKS = {
 	'C03': ('exploration', 'runtime monitor: parent-pointer taxonomy model vs classify() on transient ORM objects (exhaustive lineages x thresholds x report flags x distance grid), random forests, end-to-end query()/gambit query on synthetic databases; monotonicity on real outputs',
 	        'Every lineage up to depth 5 (thorough 6) with thresholds in {None,.25,.5,.75} and all report-flag assignments is classified over a grid that contains every threshold and its float32 neighbours; closest match, prediction, primary match, next taxon, report taxon and monotonicity are compared with the model; random forests (depth up to 8+, ties for the minimum) and real databases with distances exactly on thresholds are sampled through the API and the CLI.',
 	        'Thresholds are float32-representable; any genome at the minimum distance is accepted as closest (tie rule is C09).', 'DESIGN.md 3/C03'),
-	'C04': ('exploration', 'runtime monitor: pairing invariant ids[sig_indices[i]] == id(genomes[i]) + per-genome distance oracle on databases with permuted / padded signature files for all four id attributes; negative cases must fail to load',
+	'C04': ('exploration', 'runtime monitor: pairing invariant ids[sig_indices[i]] == id(genomes[i]) + per-genome distance oracle on databases with permuted / padded signature files for all four id attributes; several databases built from one long-lived genome-set object with committed identifier edits in between; negative cases must fail to load',
 	        'Synthetic databases with pairwise distinct signatures are written for each identifier attribute with sorted / reversed / random signature order, interleaved unrelated signatures and different value dtypes; after loading, the pairing is asserted and every distance reported through query() (all genomes requested, several chunk sizes) and the CLI archive is compared with the exact distance to that genome\'s own signature. Dropping each signature in turn, renaming an id, missing / misspelt / NULL / wrong-kind identifiers and 11 bad directory layouts must raise.',
 	        'Duplicate ids in a signature file are outside the domain.', 'DESIGN.md 3/C04'),
-	'C09': ('exploration', 'runtime monitor: (distance, reference order) oracle on every closest-genomes list from query() and the CLI, run in fresh processes under 4 NumPy CPU-dispatch settings x thread counts x chunk sizes with cross-setting digest comparison',
+	'C09': ('exploration', 'runtime monitor: (distance, reference order) oracle on every closest-genomes list from query() and the CLI, run in fresh processes under 4 NumPy CPU-dispatch settings x thread counts x chunk sizes with cross-setting digest comparison; one caller-owned parameter object re-used across databases of increasing size',
 	        'Tie-heavy databases with 1..500 references (identical and equidistant genomes, all-equal and distance-1 rows) are queried with N in {1,2,10,n,n+5}; each list must be the stable (distance, position) prefix with bit-exact distances and per-entry matched taxa, its head must be the closest match, CSV and JSON must name the same closest genome, and the lists must be identical across NPY_DISABLE_CPU_FEATURES settings (read back from NumPy), OpenMP thread counts and chunk sizes.',
 	        'CPU-feature dimension limited to what this CPU has and NumPy can switch off.', 'DESIGN.md 3/C09'),
 	'C10': ('exploration', 'runtime monitor: strict-consensus model vs consensus_taxon / classify(strict=True) for every forest on <=5 taxa x every matched subset x every order; every permutation of reference genomes for seeded worlds; end-to-end --strict with permuted signature files',
@@ -53,10 +53,10 @@ CHECKS = {
 	'C08': ('exploration', 'runtime monitor: oracle row per genome + metamorphic equality with the alone-run over batches, orderings, input channels, -c, progress and formats of gambit query; query() chunk sizes; console-script slice',
 	        'Sequence worlds (reference genomes mutated along a tree, signatures from the reference definition) are queried in batches of 1..30 files in several orders through positional arguments, list files (relative / absolute, blank lines), gzip copies and signature files made by signatures create or by the oracle, with -c 1..16, progress on/off, csv/json/archive and --strict; row count, order, labels (basename minus .gz minus FASTA extension, or stored id) and row content are compared with the oracle and with the row the genome gets alone.',
 	        'Path fields / timestamps are not genome content; tied closest genomes resolved by reference order.', 'DESIGN.md 3/C08'),
-	'C11': ('exploration', 'runtime monitor: results objects from real queries exported as csv/json/archive, parsed back with stdlib csv/json and the archive reader, compared field by field with plain attribute access; known-finding classifier by mechanism',
+	'C11': ('exploration', 'runtime monitor: results objects from real queries exported as csv/json/archive, parsed back with stdlib csv/json and the archive reader, compared field by field with plain attribute access, with exporters carrying other format options alive in the same process; known-finding classifier by mechanism',
 	        'Strict and non-strict result sets (no prediction, unreportable taxon, failed strict results, warnings, items without source file, primary != closest) with hostile labels / taxon names / genome descriptions are exported to paths and file objects, pretty or not, and through gambit query -f; CSV must parse back with a standard reader and every cell equal the attribute, JSON must be valid and carry label / reported / next taxon / closest genomes, the archive read back must equal the original incl. every distance bit, warnings, errors, params.',
 	        'Known finding csv-bare-cr (bare CR written unquoted by the Python 3.12 csv module with LF terminator) is keyed by mechanism; every other CSV mismatch stays a violation.', 'DESIGN.md 3/C11'),
-	'C14': ('exploration', 'runtime monitor: exit status + output inspection for every command / option combination bringing two signature sources together with mismatching parameters; oracle distances under the expected parameters for matching / inferred ones',
+	'C14': ('exploration', 'runtime monitor: exit status + output inspection for every command / option combination bringing two signature sources together with mismatching parameters (different genomes as well as the same genomes under two parameter sets); oracle distances under the expected parameters for matching / inferred ones',
 	        'For parameter pairs differing in k, prefix, both, prefix length or only prefix case, query -s (csv/json/archive/strict), dist with every query channel x reference channel x explicit / inferred -k/-p, incomplete -k/-p and --db-params conflicts are run: mismatches must exit non-zero and leave no result; matching / inferred combinations must give the oracle distances under the pre-computed side\'s or the database\'s (non-default) parameters.',
 	        'An existing but empty -o file is not a result.', 'DESIGN.md 3/C14'),
 	'C16': ('exploration', 'runtime monitor: CSV of gambit dist parsed with the stdlib reader and compared with oracle labels and float32 oracle distances for all 3 x 5 channel combinations',
